@@ -8,7 +8,8 @@ driver `drivers/C17.lean` runs at `Float`.
 -/
 import GPVerif.Bridge.Constraints
 import GPVerif.Model.ParamStore
-import GPVerif.Model.Priors
+import GPVerif.Gen.Priors
+import GPVerif.Bridge.PriorNorm
 import Mathlib.Probability.Distributions.Gaussian.Real
 import Mathlib.Tactic.NormNum
 import Mathlib.Tactic.Push
@@ -316,40 +317,55 @@ theorem initialize_guard (c e r : Bool) :
 /-! ### priors -/
 
 open ProbabilityTheory MeasureTheory in
-/-- **prior_density_partial** — of the modelled prior log-densities, the Normal one is proved to be the
-Gaussian density (`gaussianPDFReal`) and hence normalised; the normalisation of the others
-(half-normal, log-normal, gamma, half-Cauchy, uniform, smoothed box) is checked numerically only.
-Full statement, not proved: `∫ exp (logProb θ x) dx = 1` for every modelled prior family. -/
-theorem prior_density_partial (μ σ : ℝ) (hσ : 0 < σ) :
-    (∀ x, Real.exp (Priors.normalLogProb μ σ x) = gaussianPDFReal μ (Real.toNNReal (σ ^ 2)) x) ∧
-    ∫ x, Real.exp (Priors.normalLogProb μ σ x) = 1 := by
-  have h : ∀ x, Real.exp (Priors.normalLogProb μ σ x) = gaussianPDFReal μ (Real.toNNReal (σ ^ 2)) x := by
-    intro x
-    have h2 : (0 : ℝ) < √(2 * π) := by positivity
-    simp only [Priors.normalLogProb, tf_log, tf_sqrt, tf_pi, Nat.cast_ofNat, gaussianPDFReal,
-      Real.coe_toNNReal _ (sq_nonneg σ)]
-    rw [Real.exp_sub, Real.exp_sub, Real.exp_log hσ, Real.exp_log h2]
-    have hs : √(2 * π * σ ^ 2) = √(2 * π) * σ := by
-      rw [Real.sqrt_mul (by positivity), Real.sqrt_sq hσ.le]
-    rw [hs]
-    rw [show -((x - μ) * (x - μ)) / (2 * (σ * σ)) = -(x - μ) ^ 2 / (2 * σ ^ 2) by ring]
-    field_simp
-  refine ⟨h, ?_⟩
-  simp_rw [h]
+/-- the Normal prior's modelled log density is Mathlib's Gaussian density -/
+theorem normal_prior_density (μ σ : ℝ) (hσ : 0 < σ) (x : ℝ) :
+    Real.exp (Priors.normalLogProb μ σ x) = gaussianPDFReal μ (Real.toNNReal (σ ^ 2)) x := by
+  rw [PriorNorm.exp_normalLogProb μ σ x hσ, gaussianPDFReal, Real.coe_toNNReal _ (sq_nonneg σ)]
+  have hs : √(2 * π * σ ^ 2) = √(2 * π) * σ := by
+    rw [Real.sqrt_mul (by positivity), Real.sqrt_sq hσ.le]
+  rw [hs, mul_comm σ]
+
+open ProbabilityTheory MeasureTheory Set in
+/-- **prior_normalised** — every scalar prior family that claims to be a probability density integrates to one
+over its support: Normal, HalfNormal, LogNormal, Uniform, HalfCauchy, Gamma (densities of torch.distributions,
+modelled in `Model/Priors.lean`) and SmoothedBox (density regenerated from smoothed_box_prior.py, including its
+normaliser `_M`). -/
+theorem prior_normalised :
+    (∀ μ σ : ℝ, 0 < σ → ∫ x, Real.exp (Priors.normalLogProb μ σ x) = 1) ∧
+    (∀ σ : ℝ, 0 < σ → ∫ x in Ioi (0 : ℝ), Real.exp (Priors.halfNormalLogProb σ x) = 1) ∧
+    (∀ μ σ : ℝ, 0 < σ → ∫ x in Ioi (0 : ℝ), Real.exp (Priors.logNormalLogProb μ σ x) = 1) ∧
+    (∀ a b : ℝ, a < b → ∫ _x in Ico a b, Real.exp (Priors.uniformLogProb a b) = 1) ∧
+    (∀ s : ℝ, 0 < s → ∫ x in Ioi (0 : ℝ), Real.exp (Priors.halfCauchyLogProb s x) = 1) ∧
+    (∀ a b : ℝ, 0 < a → 0 < b →
+      ∫ x in Ioi (0 : ℝ), Real.exp (Priors.gammaLogProb a b (Real.log (Real.Gamma a)) x) = 1) ∧
+    (∀ a b σ : ℝ, a < b → 0 < σ → ∫ x, Real.exp (Gen.Priors.smoothedBoxLogProb a b σ x) = 1) := by
+  refine ⟨fun μ σ hσ => ?_, PriorNorm.halfNormal_normalised, PriorNorm.logNormal_normalised,
+    PriorNorm.uniform_normalised, PriorNorm.halfCauchy_normalised, PriorNorm.gamma_normalised,
+    PriorNorm.smoothedBox_normalised⟩
+  simp_rw [normal_prior_density μ σ hσ]
   exact integral_gaussianPDFReal_eq_one μ (by
     intro h0
     have : σ ^ 2 ≤ 0 := Real.toNNReal_eq_zero.mp h0
     exact absurd this (not_le.mpr (pow_pos hσ 2)))
 
+/-- **prior_density_partial** — what remains unproved about prior densities: the matrix-valued families
+(`MultivariateNormalPrior`, `LKJPrior`, `LKJCholeskyFactorPrior`, `LKJCovariancePrior`) are compared with reference
+densities and (LKJ, n = 2) integrated numerically only; `HorseshoePrior` is documented as an unnormalised
+approximation (`pdf(x) ∼ (lb(x) + ub(x))/2`), so there is nothing to normalise.  Proved about the generated horseshoe
+expression: it is an even function of `x`. -/
+theorem prior_density_partial (s x : ℝ) :
+    Gen.Priors.horseshoeLogProb s (-x) = Gen.Priors.horseshoeLogProb s x := by
+  simp only [Gen.Priors.horseshoeLogProb, div_neg, neg_mul_neg]
+
 /-- inside the box the smoothed-box density is the constant `1 / (√(2π)·σ + (b − a))` -/
 theorem smoothed_box_plateau {a b σ x : ℝ} (hσ : 0 < σ) (hab : a < b) (hx : a ≤ x ∧ x ≤ b) :
-    Real.exp (Priors.smoothedBoxLogProb a b σ x) = 1 / (√(2 * π) * σ + (b - a)) := by
+    Real.exp (Gen.Priors.smoothedBoxLogProb a b σ x) = 1 / (√(2 * π) * σ + (b - a)) := by
   have h2 : (0 : ℝ) < √(2 * π) := by positivity
   have hX : max (|x - (a + b) / 2| - (b - a) / 2) 0 = 0 := by
     apply max_eq_right
     have : |x - (a + b) / 2| ≤ (b - a) / 2 := by rw [abs_le]; constructor <;> linarith [hx.1, hx.2]
     linarith
-  simp only [Priors.smoothedBoxLogProb, Priors.normalLogProb, tf_log, tf_sqrt, tf_pi, tf_abs,
+  simp only [Gen.Priors.smoothedBoxLogProb, Priors.normalLogProb, tf_log, tf_sqrt, tf_pi, tf_abs,
     Nat.cast_ofNat, Nat.cast_zero, Nat.cast_one, hX]
   have h3 : 0 < 1 + (b - a) / (√(2 * π) * σ) := by
     have : 0 < (b - a) / (√(2 * π) * σ) := div_pos (by linarith) (by positivity)
